@@ -163,3 +163,17 @@ package query
 //@   nosafety
 //@   noframe
 //@   ensures emptytrue: implies(len(cs) == 0, len(result) == 1 && len(result[0]) == 1 && isa(result[0][0], *ImpossibleCondition))
+
+// then(): the sequence operator builds its result from copies; the operands' element lists are not
+// written (append is modelled with both of its outcomes here: in place when the operand has spare
+// capacity, or into a fresh array).
+//@ func (Conditions).then
+//@   prop C03
+//@   nosafety
+//@   appendinplace
+//@ func (ConditionsSet).Or
+//@   prop C03
+//@   appendinplace
+//@   ensures or_len: len(result) == len(a) + len(b)
+//@   ensures or_left: forall(k, 0, len(a), same_slice(result[k], a[k]))
+//@   ensures or_right: forall(k, 0, len(b), same_slice(result[len(a)+k], b[k]))
